@@ -91,6 +91,7 @@ errtok!(tower_resilience_coalesce::CoalesceError<E>, tower_resilience_coalesce::
     tower_resilience_coalesce::CoalesceError::LeaderCancelled => "cancelled".to_string(),
     _ => "recv".to_string(),
 });
+errtok!(tower_resilience_cache::CacheError<E>, tower_resilience_cache::CacheError::Inner, |_e: &tower_resilience_cache::CacheError<E>| "cache".to_string());
 impl<E: ErrTok> ErrTok for tower_resilience_fallback::FallbackError<E> {
     fn own(&self) -> Option<String> {
         match self {
